@@ -28,7 +28,7 @@ def window(win, t):
 SLACK = 60        # the default ts_threshold
 
 
-def one(F, T, kind, certs, fs, sf, t=T0, seedmap=seed_of, corrupt=None, ahead=SLACK):
+def one(F, T, kind, certs, fs, sf, t=T0, seedmap=seed_of, corrupt=None, ahead=SLACK, allowed='00', flag='00', perturb=None):
     """`ahead` (>= SLACK): how far a "future" execution timestamp is ahead of the verifier clock."""
     wins = [c['win'] for c in certs]
     now = t - ahead if 'future' in wins else t - (SLACK - 1) if 'slackm1' in wins else t
@@ -46,12 +46,15 @@ def one(F, T, kind, certs, fs, sf, t=T0, seedmap=seed_of, corrupt=None, ahead=SL
     F.time = lambda: now
     try:
         if kind == 'single':
-            lock = T.make_delegate_key_lock(E.public_key(seedmap(1)))
-            wit = T.make_delegate_key_witness(seedmap(fs), real[0], dict(sf))
+            lock = T.make_delegate_key_lock(E.public_key(seedmap(1)), allowed)
+            wit = T.make_delegate_key_witness(seedmap(fs), real[0], dict(sf), flag)
         else:
-            lock = T.make_delegate_key_chain_lock(E.public_key(seedmap(1)))
-            wit = T.make_delegate_key_chain_witness(seedmap(fs), list(reversed(real)), dict(sf))
-        ok = F.run_auth_scripts([bytes(wit.bytes), bytes(lock.bytes)], {**sf, 'timestamp': t})
+            lock = T.make_delegate_key_chain_lock(E.public_key(seedmap(1)), allowed)
+            wit = T.make_delegate_key_chain_witness(seedmap(fs), list(reversed(real)), dict(sf), flag)
+        cache = {**sf, 'timestamp': t}
+        if perturb:           # a sigfield changed after signing
+            cache[perturb] = cache[perturb] + b'!'
+        ok = F.run_auth_scripts([bytes(wit.bytes), bytes(lock.bytes)], cache)
         return 'true' if ok else 'false'
     finally:
         F.time = old
@@ -98,13 +101,35 @@ def record_random(args):
             off = r.choice([r.randrange(0, 32), r.randrange(32, 36), r.randrange(36, 40), 40, r.randrange(41, 105)])
             corrupt = (i, off, 1 << r.randrange(8))
             model[i]['s'] = 8          # the certificate signature no longer verifies under the authorizing key
+        # sigflags: a permitted flag with an excluded field changed keeps the verdict; a covered field changed or a
+        # non-permitted flag makes the final signature invalid (modelled as a final signer 0 that is nobody's delegate)
+        allowed = flag = '00'
+        perturb = None
+        model_fs = fs
+        if r.random() < 0.45:
+            bit = r.randrange(8)
+            allowed = f'{(1 << bit) | (r.randrange(256) if r.random() < 0.5 else 0):02x}'
+            excl, other = f'sigfield{bit + 1}', f'sigfield{(bit + 1) % 8 + 1}'
+            sf.setdefault(excl, b'e')
+            sf.setdefault(other, b'c')
+            sub = r.random()
+            outside = [i for i in range(8) if not int(allowed, 16) >> i & 1]
+            if sub < 0.4:
+                flag, perturb = f'{1 << bit:02x}', excl
+            elif sub < 0.6:
+                flag = f'{1 << bit:02x}'
+            elif sub < 0.8:
+                flag, perturb, model_fs = f'{1 << bit:02x}', other, 0
+            elif outside:
+                flag, model_fs = f'{1 << r.choice(outside):02x}', 0
         try:
-            got = one(F, T, kind, certs, fs, sf, t, lambda k: keys[k], corrupt, r.choice([SLACK, SLACK, SLACK + 1, 10 ** 6]))
+            got = one(F, T, kind, certs, fs, sf, t, lambda k: keys[k], corrupt, r.choice([SLACK, SLACK, SLACK + 1, 10 ** 6]),
+                      allowed, flag, perturb)
         except BaseException as e:
             if isinstance(e, (KeyboardInterrupt, SystemExit)):
                 raise
             got = f'raised-{type(e).__name__}'
-        out.append({'kind': kind, 'certs': model, 'fs': fs, 'got': got})
+        out.append({'kind': kind, 'certs': model, 'fs': model_fs, 'got': got})
     return out
 
 
@@ -117,7 +142,8 @@ def main(tier: str, seed: int) -> int:
                 'AuthIsCertified; CertRoundTrip on the 105-byte layout (offsets 32/36/40/41, 4-byte timestamps at 0, 1, 2^8, 2^16, 2^24 '
                 'boundaries and 2^31-1). Every chain is built with the real cert / witness / lock builders under a pinned clock and '
                 'run through run_auth_scripts; serialisation cases compare Certificate.pack() bytes and unpack(). traces: chains up '
-                'to 6, random keys and 31-bit timestamps, single-byte corruption of a serialised certificate field, judged by TLC '
+                'to 6, random keys and 31-bit timestamps, single-byte corruption of a serialised certificate field, random allowed-flags bytes with permitted flags (excluded '
+                'field changed: verdict kept; covered field changed: rejected) and non-permitted flags, judged by TLC '
                 'running the same machine.')
     rep.assumptions = ['ideal signatures', 'a corrupted certificate is modelled as one not signed by the authorizing key']
     quick = tier == 'quick'
